@@ -95,6 +95,9 @@ theorem Ext.effects_cascade (fuel : Nat) :
         · exact ihc w _
         · exact Ext.apply w _ _
         · exact Ext.apply w _ _
+        · split
+          · exact Ext.apply w _ _
+          · exact Ext.trans (Ext.apply w _ _) (Ext.apply _ _ _)
         · exact Ext.refl w
     · intro w kids
       cases kids with
